@@ -21,7 +21,7 @@ CONSTANTS N,        \* maximal number of leaves pushed (tree behaviours)
           W,        \* machine word width of the index arithmetic
           Dup,      \* TRUE: leaf data drawn from {0,1} (duplicates); FALSE: leaf k has datum k
           Mode,     \* "tree" | "triples"
-          CheckedDecode  \* TRUE: try_into_proof validates overflow and audit-path length (the repaired code)
+          CheckedDecode  \* TRUE: try_into_proof rejects overflowing indices, even sizes, over-long audit paths (repaired code)
 
 Pow2(k) == 2 ^ k
 WMax == Pow2(W) - 1            \* usize::MAX of the model
@@ -167,7 +167,7 @@ Decode(pathLen, leafIdx, size) ==
   IF size = 0 THEN "zero_size"
   ELSE IF CheckedDecode
     THEN (IF 2 * leafIdx > WMax \/ ~(2 * leafIdx < size) THEN "outside"
-          ELSE IF size % 2 = 0 \/ pathLen # TreeWalkLen(leafIdx, size) THEN "bad_len"
+          ELSE IF size % 2 = 0 \/ pathLen > TreeWalkLen(leafIdx, size) THEN "bad_len"
           ELSE "ok")
     ELSE LET ti == LeafToTree(leafIdx)
          IN IF ti = Panic THEN "panic" ELSE IF ~(ti < size) THEN "outside" ELSE "ok"
